@@ -340,8 +340,13 @@ pub fn dedupe_args(c: &DCase, files: &[PathBuf], canon_roots: &[PathBuf], target
     ] {
         for ps in specs {
             if let Some(g) = resolve_pattern(ps, files, for_path) {
-                a.push(flag.into());
-                a.push(g.clone().into());
+                // (a value that starts with `-` has to be attached to its option)
+                if g.starts_with('-') {
+                    a.push(format!("{}={}", flag, g).into());
+                } else {
+                    a.push(flag.into());
+                    a.push(g.clone().into());
+                }
                 match dst {
                     0 => rp.name.push(g),
                     1 => rp.path.push(g),
@@ -396,7 +401,13 @@ pub fn build_and_group(prop: &str, c: &DCase, n: u64, fs: Fs) -> Grouped {
     let built = c.tree.build(&cd.tree());
     let roots = root_args(c.roots);
     let fmt = if c.text { "default" } else { "json" };
-    let gr = run_group(&cd, &c.gopts, &roots, fmt, &[]);
+    // one scenario in five runs `group` from the parent directory with a relative --base-dir (the report
+    // header then records the resolved base directory, and the recorded command a relative one)
+    let gr = if c.tree.entries.len() % 5 == 3 {
+        run_group_base_dir(&cd, &c.gopts, &roots, fmt, &cd.base, "t")
+    } else {
+        run_group(&cd, &c.gopts, &roots, fmt, &[])
+    };
     let canon_roots: Vec<PathBuf> =
         root_paths(&cd.tree(), c.roots).iter().map(|p| std::fs::canonicalize(p).unwrap_or(p.clone())).collect();
     Grouped { report_bytes: gr.out.stdout.clone(), group: gr.out, group_cmd: gr.cmdline, cd, built, canon_roots }
